@@ -38,17 +38,29 @@ CLAIMS["C12"] = ("other", "Sequential obligations proved for all six wrappers (f
                  "from these to 'for all interleavings and context-inheritance modes' is a paper argument over contextvars semantics and "
                  "is listed as an unchecked assumption. Replays: asyncio tasks / copied-context threads with explicit hand-offs.", "8 C12")
 
+CLAIMS["C09"] = ("proof", "_create_violation_error is proved against the decision table over the kind of `error` (None -> fresh ViolationError "
+                 "with the generated message; function/method -> called once with exactly the named values, result returned as is or TypeError; "
+                 "exception class -> instantiated with the message; instance -> that very object); the walks raise exactly that object; the three "
+                 "decorator constructors are proved against one validation spec (ValueError for any other kind, nothing inspected when disabled); "
+                 "Contract.__init__ establishes the error_args invariant the table relies on.", "8 C09")
+CLAIMS["C15"] = ("proof", "Disabled: the four decorator constructors return before reading condition/capture/error (no allocation, no event) and "
+                 "the three function-decorator __call__ return the identical object with an unchanged heap; the default of `enabled` is the "
+                 "expression __debug__ (syntactic obligation); SLOW == __debug__ and ICONTRACT_SLOW non-empty (symbolic evaluation of the module "
+                 "statement). Mode independence: every assert in every unit under contract is an obligation proved never to fail, so "
+                 "deleting them (-O) changes nothing. invariant.__call__ is not yet under contract.", "8 C15")
+CLAIMS["C19"] = ("proof", "Guard table: decorate_with_checker raises TypeError for _ARGS/_KWARGS parameters before any wrapper exists; both checker "
+                 "closures raise TypeError for _ARGS/_KWARGS keywords before any event and for result/OLD with postconditions before any condition; "
+                 "invariant.__init__ raises ValueError for coroutine-function conditions and foreign mandatory arguments; the error validation in all "
+                 "three decorators; Snapshot.__init__ and snapshot.__call__ (no postcondition, duplicate names).", "8 C19")
+
 NOT_YET = {
     "C03": "invariant wrappers and add_invariant_checks not yet under contract in this round",
     "C04": "metaclass merge units not yet under contract in this round",
     "C06": "interpreter units (_recompute.Visitor) not yet under contract",
     "C07": "interpreter and decorator-inspection units not yet under contract",
-    "C09": "_create_violation_error body and decorator validation not yet under contract",
     "C14": "decorating units (update_wrapper, find_checker) not yet under contract",
-    "C15": "decorator __init__/__call__ units not yet under contract",
     "C17": "class-heap frame obligations not yet built",
     "C18": "depends on C04/C14 units",
-    "C19": "guard table units not yet under contract",
     "C20": "repr_values / _represent units not yet under contract",
 }
 
@@ -61,9 +73,9 @@ def main():
             "quick_cmd": "./check %s --tier quick" % pid,
             "thorough_cmd": "./check %s --tier thorough" % pid,
             "evidence_file": "/verif/evidence/%s.json" % pid,
-            "replay_cmd_template": "PYTHONPATH=/repo /venv/bin/python /verif/replay/%s --scenario {path}" % ({"C05": "bindfam.py", "C12": "ctxfam.py"}.get(pid, "callfam.py")),
+            "replay_cmd_template": "PYTHONPATH=/repo /venv/bin/python /verif/replay/%s --scenario {path}" % ({"C05": "bindfam.py", "C12": "ctxfam.py", "C15": "defnfam.py", "C19": "defnfam.py"}.get(pid, "callfam.py")),
             "engine": "pyvc",
-            "level_claimed": {"category": cat, "text": text + " Units: " + UNITS_A + ".", "design_ref": "DESIGN.md section " + ref},
+            "level_claimed": {"category": cat, "text": text + " The units under contract are listed with their AST hashes in the evidence file.", "design_ref": "DESIGN.md section " + ref},
             "level_note": TRUST,
             "technique": "contract-based deductive verification: VCs generated from the AST of the real functions against sidecar contracts, discharged by z3",
         })
